@@ -258,7 +258,7 @@ def run(ctx):
                       {'kind': 'mech', 'behaviour': mbehs[bi], 'position': pos})
     # 3. Session behaviours on every sampler class
     plans = [{'kind': 'main', 'maxlen': 3 if quick else 4, 'fit': not quick},
-             {'kind': 'main', 'maxlen': 3, 'simulate': 100 if quick else 1500, 'depth': 6 if quick else 8},
+             {'kind': 'main', 'maxlen': 3, 'simulate': 100 if quick else 400, 'depth': 6 if quick else 8},
              {'kind': 'draw', 'maxlen': 4 if quick else 5}]
     binds = B.all_bindings()
     plans_rs = [{'kind': 'main', 'maxlen': 2 if quick else 3}, {'kind': 'draw', 'maxlen': 4}]
